@@ -46,14 +46,11 @@ Theorem C07_datetime_reload : forall p d, 0 <= p <= 6 -> valid_datetime d ->
 Proof. exact datetime_reload. Qed.
 Print Assumptions C07_datetime_reload.
 
-(* SQLite date attributes, years 1000..9999 *)
-Theorem C07_date_reload_except_known : forall d, valid_date d -> 1000 <= dy d -> reload_date d = RVal d.
-Proof. exact date_reload_except_known. Qed.
-Print Assumptions C07_date_reload_except_known.
-
-Theorem C07_date_reload_full_if_fixed : forall d, date_text_pads_year = true -> valid_date d -> reload_date d = RVal d.
-Proof. exact date_reload_full_if_fixed. Qed.
-Print Assumptions C07_date_reload_full_if_fixed.
+(* SQLite date attributes: every valid date (years 1..9999) reloads as itself.  (The proof computes `date_text_pads_year = true`
+   from the regenerated translation of SQLiteDateConverter.py2sql; the unpadded strftime('%Y') was repaired in /repo commit 80b5dcb.) *)
+Theorem C07_date_reload : forall d, valid_date d -> reload_date d = RVal d.
+Proof. exact date_reload. Qed.
+Print Assumptions C07_date_reload.
 
 (* SQLite time attributes: the text written by py2sql is parsed back to the time by the strptime calls of sql2py ... *)
 Theorem C07_time_text : forall t, valid_time t ->
